@@ -2,7 +2,7 @@
 """Confirm a seeded change and run the checks against it.
 
   eval_mutant.py <deliver_dir> <a|b> <property> [extra properties...]      both phases
-  eval_mutant.py --confirm-only [--slot N] <deliver_dir> <a|b> <property>  phase 1 only (parallelisable: own worktree / target dir per slot)
+  eval_mutant.py --confirm-only [--slot N] [--as <letter>] <deliver_dir> <a|b> <property>  phase 1 only (parallelisable: own worktree / target dir per slot)
   eval_mutant.py --check-only <property>-<a|b> [properties...]              phase 2 only (serial: patches /repo, runs ./check, restores)
 
 1. scratch worktree of /repo under /tmp: the change applies, the repository's 532 tests still pass
@@ -57,9 +57,13 @@ def main():
     if args[0] == "--slot":
         slot = "-" + args[1]
         args = args[2:]
+    as_letter = None
+    if args[0] == "--as":
+        as_letter = args[1]
+        args = args[2:]
     deliver, letter, prop = args[0], args[1], args[2]
     extra = args[3:]
-    mid = "%s-%s" % (prop, letter)
+    mid = "%s-%s" % (prop, as_letter or letter)
     out = "/verif/seeded/%s" % mid
     os.makedirs(out, exist_ok=True)
     diff = os.path.join(deliver, "%s.diff" % letter)
